@@ -232,6 +232,7 @@ var c05MaxStepsPer100 int64
 func c05Exhaustive(rec *recorder, t *testing.T) bool {
 	run := func(c C05Case) bool {
 		writeCurrent("C05", c)
+		histLog(c)
 		v := checkC05(c)
 		rec.record(c, v)
 		if v.Err != nil {
